@@ -115,6 +115,26 @@ ENGINES = [
  {"name": "wrapper-models", "path": "harness/src/wrap.rs", "serves_properties": ["C06","C07","C08","C09","C12","C13","C36","C34"], "kind_free_text": "independent executable models of both aggregation wrappers; wrapper-only / full recursive circuit forms"},
 ]
 
+REAL_NOTE = ("Trusted base: plonky2 prover/verifier, the harness's wrapper models; child circuits are fake free-PI circuits where the constructors allow any child, real circuits where loaders are canonical-pinned. "
+             "'held' means held on the vectors / artifacts generated.")
+CHECKS.update({
+ "C14": ("exploration", "runtime monitor over the real provers' commit/prove with model + constraint-oracle adjudication of rejections",
+         "Vectors of valid / tampered child proofs (lengths 0..N+1, every metadata mix, duplicate nullifiers, caller-supplied dummies, grouped exit sums around 2^32, padding with non-zero asset) are fed to PrivateBatchProver::commit and PublicBatchProver::commit; every Ok is proved and verified; every Err with all documented policies satisfied must be unprovable according to the wrapper model AND the constraint oracle on the wrapper circuit; policy violations must be Err.",
+         REAL_NOTE, "§5 C14, §7 D1"),
+ "C15": ("exploration", "runtime statistical monitor over committed witnesses (hook H3/H4 read access + re-arm)",
+         "One prover per (N,k) commits the same k distinguishable proofs thousands of times (re-armed through the hook); the committed partial witness is read back: multiset = supplied + (N-k) validated templates (proof body checked, not only public inputs), arrangement counts chi-square-uniform at alpha=1e-9 with every arrangement seen and no position bias, preimages never repeat and have uniform top bytes; the public prover keeps the supplied order followed by templates.",
+         REAL_NOTE + " Uniformity is a statistical statement at the stated run sizes.", "§5 C15"),
+ "C16": ("exploration", "runtime monitor over every template-accepting entry point (constructors, loaders, build step, aggregator init)",
+         "Templates deviating from the sentinel in every public-input position (singly, pairs), non-verifying templates, and real-circuit templates (dummy with asset 7 / non-zero exit limbs, real proofs, real block hash with zero outputs, corrupted bytes) at PrivateBatchProver::{new,new_from_bytes,new_from_files,new_from_binaries_dir}, generate_private_batch_circuit_binaries (nothing may be published), PublicBatchProver::{new,new_from_bytes,new_from_binaries_dir} and PublicBatchAggregator::with_limits; the canonical templates must be accepted.",
+         REAL_NOTE, "§5 C16"),
+ "C17": ("exploration", "runtime monitor over artifact loaders (exhaustive bit flips of the leaf artifacts, sampled mutations elsewhere, sparse oversized files, inotify on planted prover artifacts)",
+         "Every single-bit flip of verifier.bin (and every 5th / every bit of common.bin) through the keccak-pinned loader; sampled flips, truncations, extensions, empty and other-shape artifacts through eight further loaders / build steps incl. the semantic public-batch pin; oversized sparse files and slices must be rejected without being opened/read (inotify) and with < 1 MiB allocated; planted prover artifacts in a bins directory are never opened while every directory loader runs.",
+         REAL_NOTE, "§5 C17"),
+ "C18": ("exploration", "runtime monitor over the real aggregation pipeline (real leaf proofs -> private batch -> pool -> public batch)",
+         "Aggregators for several addresses (incl. all-zero and all p-1 limbs) over artifacts from generate_all_circuit_binaries aggregate real private-batch proofs; the returned proof must verify under a canonical rebuild of the public-batch verifier and expose the configured address; every other aggregator must reject it; tampered public inputs and proofs with +-1..8 public inputs must be rejected without panic.",
+         REAL_NOTE, "§5 C18"),
+})
+
 def head(repo):
     return subprocess.check_output(["git", "-C", repo, "log", "--format=%h %s", "--grep=^verif-hooks", "--reverse"], text=True).strip().splitlines()
 
